@@ -139,6 +139,22 @@ func ruleSwap(c *Ctx) {
 			}
 			_ = g
 		}
+		// the comparator's answer is its truth value (any value other than nil/false means "less")
+		asBool := p.Fn("lua", "LVAsBool")
+		pop := p.Fn("lua", "(*registry).Pop")
+		okTruth := false
+		allInstrs(fn, func(in ssa.Instruction) {
+			r, ok := in.(*ssa.Return)
+			if !ok || len(r.Results) != 1 {
+				return
+			}
+			if call, ok := r.Results[0].(*ssa.Call); ok && call.Call.StaticCallee() == asBool {
+				if inner, ok := call.Call.Args[0].(*ssa.Call); ok && inner.Call.StaticCallee() == pop {
+					okTruth = true
+				}
+			}
+		})
+		c.check(okTruth, R, "Less:truth-value-of-result", p.pos(fn.Pos()), "the comparator's single result is converted with LVAsBool", "Less does not take the Lua truth value of the comparator's result (a comparator returning a truthy non-boolean, e.g. 'a < b and a', is read as false): the list is not ordered by lt")
 		c.check(okCmp, R, "Less:comparator(Values[i],Values[j])", p.pos(fn.Pos()), "the comparator is called with exactly (Values[i], Values[j]) for one result", "the comparator is not called with exactly the two elements being compared, in order")
 	}
 	if fn := c.need(R, "lua", "tableSort"); fn != nil {
@@ -490,6 +506,31 @@ func ruleOrder(c *Ctx) {
 				inGlobals = true
 			}
 		}
+		// the table is (re)created unless the cached entry already IS a table: a sentinel, true or any other
+		// non-table left in package.loaded must not be handed out as the module
+		g := p.G(fn)
+		ltTable, _ := p.intConst("lua", "LTTable")
+		okGuard := false
+		for _, cl := range callsTo(fn, find) {
+			if !strings.Contains(vkey(cl.Call.Args[1]), fmt.Sprintf("c:%d", gi)) {
+				continue
+			}
+			for _, cd := range g.CondsAtInstr(cl) {
+				if b, ok := cd.V.(*ssa.BinOp); ok {
+					if k, isc := constInt(b.Y); isc && k == ltTable && strings.Contains(vkey(b.X), ".Type()") {
+						if (b.Op == token.NEQ && cd.Sense) || (b.Op == token.EQL && !cd.Sense) {
+							okGuard = true
+						}
+					}
+				}
+				if ex, ok := cd.V.(*ssa.Extract); ok && !cd.Sense {
+					if ta, ok := ex.Tuple.(*ssa.TypeAssert); ok && strings.Contains(ta.AssertedType.String(), "LTable") {
+						okGuard = true
+					}
+				}
+			}
+		}
+		c.check(okGuard, R, "RegisterModule:creates-unless-table", p.pos(fn.Pos()), "the module table is created whenever the cached entry is not a table", "RegisterModule hands out whatever non-nil value sits in package.loaded[name] (the loop sentinel while a loader runs, or 'true' left by an earlier load) instead of creating the module table: the module is reachable neither through require nor through its global name")
 		c.check(inLoaded && inGlobals, R, "RegisterModule:loaded-and-global", p.pos(fn.Pos()), "the module table is created under its global name and stored in _LOADED[name]", "a host-registered module is not reachable both through require and through its global name")
 	}
 	if fn := c.need(R, "lua", "(*LState).PreloadModule"); fn != nil {
